@@ -7,7 +7,7 @@ p = os.path.join(HERE, 'seeded', 'RESULTS.tsv')
 if os.path.exists(p):
     for l in open(p):
         f = l.rstrip('\n').split('\t')
-        if len(f) >= 5:
+        if len(f) >= 5 and '=' in f[2]:
             res[(f[0], f[1])] = dict(exit=f[2].split('=')[1], violations=int(f[3].split('=')[1]), no_failing_input=int(f[4].split('=')[1]),
                                      demo=(f[5].split('=')[1], f[6].split('=')[1]) if len(f) >= 7 else None)
 
